@@ -31,6 +31,8 @@ def classify(fs):
     obs = fs[-1]
     if k == "c14v":
         return "visits:" + (obs.rsplit("|", 1)[-1] if "|" in obs else obs)
+    if k in ("c14l", "c14a", "c14t"):
+        return {"c14l": "walklocal", "c14a": "path-api", "c14t": "walktransforming(oracle only)"}[k]
     if k == "c14n":
         return "nested:" + "".join(p[0] for p in fs[5].split(">")) + ":" + obs.rsplit("|", 1)[-1]
     if k == "c14p":
